@@ -1,5 +1,6 @@
 """C08 -- after any finite run of faults the client re-converges on the cache's data."""
 from .fsm_common import fsm_job
+from .sync_common import *
 
 INFO = {
     "outside": 'the liveness composition itself; fault schedules are covered through the arbitrary start state rather than enumerated',
@@ -15,4 +16,5 @@ MANIFEST = {
 def jobs(tier):
     B = 8 if tier == "quick" else 12
     return [fsm_job("fsm_no_zero_time_cycle_b%d" % B, "ASSERT_C08", B, timeout=2400),
-            fsm_job("fsm_converges_b16", "ASSERT_C08", 16, extra=["GOOD_ENV"], timeout=2400)]
+            fsm_job("fsm_converges_b16", "ASSERT_C08", 16, extra=["GOOD_ENV"], timeout=2400)] + \
+        [sync_job("ASSERT_C05", sk) for sk in fam_after_cr() + [[CR, EOD], [CR, V4, EOD], [CR, V4, T_OUT], [CR, V4, TRERR]]]
